@@ -697,6 +697,30 @@ def mc_once(tier, seed):
     return res
 
 
+def apalache_once(tier, seed):
+    """inductive invariant of the once protocol (unbounded number of calls), symbolic, with a negative control"""
+    import subprocess as sp, time as _t
+    d = vlib.scratch("verif-apa-")
+    vlib.shutil.copy(os.path.join(vlib.SPEC, "OnceInd.tla"), d)
+    res = []
+    queries = [("Init => IndInv", ["--cinit=CInit", "--init=Init", "--inv=IndInv", "--length=0"], True),
+               ("IndInv /\\ Next => IndInv'", ["--cinit=CInit", "--init=IndInit", "--inv=IndInv", "--length=1"], True),
+               ("IndInv => Safe", ["--cinit=CInit", "--init=IndInit", "--inv=Safe", "--length=0"], True),
+               ("control: unsynchronised fast path is not inductive", ["--cinit=CInitUnsync", "--init=IndInit", "--inv=IndInv", "--length=1"], False)]
+    t0 = _t.time()
+    for (name, args, want_ok) in queries:
+        r = sp.run(["timeout", "900", "apalache-mc", "check"] + args + ["OnceInd.tla"], cwd=d, capture_output=True, text=True)
+        out = r.stdout + r.stderr
+        ok = "EXITCODE: OK" in out
+        err = "Found 1 error" in out or "violated" in out
+        if want_ok and not ok:
+            raise Infra("Apalache query failed (%s):\n%s" % (name, out[-1500:]))
+        if not want_ok and not err:
+            raise Infra("Apalache negative control did not fail (%s):\n%s" % (name, out[-1500:]))
+    res.append(dict(module="OnceInd[Apalache: 3 inductiveness queries hold, control fails]", states=4, distinct=4, wall_s=round(_t.time() - t0, 1)))
+    return res
+
+
 _conc_programs = {}
 
 
@@ -822,7 +846,7 @@ def replay_c12(path, binary):
     return (True, "20 concurrent re-executions, no race report and all results equal to the sequential ones")
 
 
-RECIPES["C12"] = dict(mc=[mc_once, mc_drive_conc], record=record_c12, replay=replay_c12, props=["C12"], race=True, no_confirm=True,
+RECIPES["C12"] = dict(mc=[mc_once, apalache_once, mc_drive_conc], record=record_c12, replay=replay_c12, props=["C12"], race=True, no_confirm=True,
                       speaks=lambda e: e.get("conc") or e.get("op") == "RaceReport",
                       rule="goroutine programs generated by Drive_Conc (all first-use shapes of 3 goroutines x 3 language slots, all operation mixes of 2 goroutines), language slots "
                            "rotating through all ordered pairs, 1-11 replicas of each goroutine, each in a fresh process of a -race build; every return validated natively and "
